@@ -119,6 +119,10 @@ def family():
                                         f("r3", "In6", default={"v": 3})]), "defaults")
     add("rec_defaults2", _rec("Dflt2", [f("s", "string", default="dd"), f("r", "int"),
                                         f("e", _enum("De"), default="B")]), "defaults")
+    # logical types with optional attributes left out
+    add("logical_noscale", _rec("Lg", [f("d", {"type": "bytes", "logicalType": "decimal", "precision": 5}),
+                                       f("x", {"type": "fixed", "name": "Fd", "size": 4, "logicalType": "decimal", "precision": 4}),
+                                       f("t", {"type": "long", "logicalType": "timestamp-millis"}), f("k", "int")]), "logical")
     # a named type defined in the schema that is not a branch of the union next to it
     add("hint_foreign", _rec("Hf", [f("p", _rec("Person", [f("name", "string")])),
                                     f("u", ["null", _rec("Locker", [f("n", "int")]), _rec("Addr2", [f("street", "string")])])]),
@@ -172,7 +176,7 @@ def select(tier, seed, want=None, extra_tags=()):
     rng = random.Random(seed)
     must = {}
     for x in F:
-        if "heavy" in x[1]:
+        if "heavy" in x[1] or "logical" in x[1]:
             continue  # symbolic maps of named types: explored by the checks that list them explicitly (C12), thorough elsewhere
         for t in x[1]:
             must.setdefault(t, []).append(x)
